@@ -232,6 +232,51 @@ def run(db, cx):
                       "value comes back changed")
     cx.floor("`field != default` omissions", n3, 3)
 
+    # --- R3c: a key may be omitted only on a whole-field condition (added after seeded change c19)
+    n3c = 0
+    for rec in pairs:
+        if rec not in tos:
+            continue
+        fv = tos[rec][0]
+        pname = fv.r["params"][1]["n"]
+        for (key, how, cond, pos, ev) in key_events(fv):
+            if how not in ("index", "pair") or not cond:
+                continue
+            for br, blk in fv.blocks.items():
+                c = blk.get("cond")
+                if not c or len(blk["succ"]) != 2 or None in blk["succ"]:
+                    continue
+                if blk.get("tk") in ("CXXForRangeStmt", "ForStmt", "WhileStmt", "DoStmt"):
+                    continue
+                edge = None
+                for e_ in (0, 1):
+                    if fv.guarded_by_edge(pos, br, e_):
+                        edge = e_
+                if edge is None:
+                    continue
+                rfields = [x.split("::")[-1] for x in c.get("refs", []) if x.startswith("F:" + C + rec + "::")]
+                if not rfields:
+                    continue        # not a condition on the record (e.g. an iterator test)
+                n3c += 1
+                core = (c.get("core") or c.get("t") or "").replace(" ", "")
+                whole = None
+                for fl_ in set(rfields):
+                    operand = "%s.%s" % (pname, fl_)
+                    if c.get("op") == "!=" and c.get("l", "").replace(" ", "") == operand:
+                        whole = "%s != %s" % (operand, c.get("r"))
+                    elif not c.get("op") and core in (operand, operand + ".empty()", "!" + operand + ".empty()"):
+                        whole = core
+                    elif not c.get("op") and core == operand + ".operatorbool()":
+                        whole = core
+                cx.ob("C19.3-omission-guard", "%s: key \"%s\" is omitted only on a condition over the "
+                      "whole field" % (rec, key), whole is not None,
+                      "guard `%s`" % c.get("t"), short(ev["loc"]),
+                      why="the reader can only restore one default for an absent key: if the writer "
+                          "decides on a part of the field (one member, a weaker comparison), every "
+                          "object that agrees with the default in that part but differs elsewhere is "
+                          "omitted and read back as the default")
+    cx.floor("conditional key writes guarded by a record field", n3c, 8)
+
     # --- R1b: paired export_*/import_* helpers (zipped surfaces ...) agree on their keys
     nh = 0
     for n_exp in db.find(r"^celeritas::detail::export_[a-z_]+$"):
